@@ -59,6 +59,11 @@ def roles(crate):
     R.pub = {nm: util.need_body(crate, "TreapNode::<T>::%s" % nm) for nm in ("merge", "split_by", "split_at")}
     R.work = {nm: _worker(crate, R, R.pub[nm]) for nm in ("merge", "split_by", "split_at")}
     R.merge, R.split_by, R.split_at = R.work["merge"], R.work["split_by"], R.work["split_at"]
+    # parameter / result shape of the split workers: which parameter is the tree, which the position or predicate, and
+    # which component of the result is the FIRST part (read off the public entry, whose contract is (left, right))
+    R.shape = {}
+    for nm_ in ("split_by", "split_at"):
+        R.shape[R.work[nm_].key] = _split_shape(R.work[nm_])
     # one private recursive skeleton shared by both splits, each handing it its own decision closure
     R.shared_split = R.split_by.key == R.split_at.key and R.pub["split_by"].key != R.split_by.key
     R.push = util.need_body(crate, "TreapNode::<T>::push")
@@ -66,14 +71,43 @@ def roles(crate):
     R.collect_into = util.need_body(crate, "TreapNode::<T>::collect_into")
     R.new = util.need_body(crate, "TreapNode::<T>::new")
     role_fns = [R.merge, R.split_by, R.split_at, R.push, R.update, R.collect_into, R.new] + [w_ for _k, w_ in R.wrapper_pairs]
-    R.helpers = util.private_helpers(crate, "TreapNode", exclude=role_fns) + util.private_helpers(crate, "Treap", exclude=role_fns)
+    R.helpers = util.private_helpers(crate, "TreapNode", exclude=role_fns) + util.private_helpers(crate, "Treap", exclude=role_fns) + util.private_type_helpers(crate, exclude=role_fns)
     # closures handed to private helpers (`node.replace_right(|mid| Self::merge(mid, r))`) are applied where called
     R.A = util.analyser(R.helpers, features=("fncall",))
     # for the Treap-level compositions, public convenience constructors of the node (new_boxed, ...) are inlined too
     rk = {x.key for x in role_fns if x is not None}
     pubh = [m for m in util.methods_of(crate, "TreapNode") + util.methods_of(crate, "Treap") if m.key not in rk and not util.self_recursive(m) and m not in R.helpers and m.name not in ("first", "last", "collect")]
     R.A2 = util.analyser(R.helpers + pubh)
+    # which component of a split worker's own result type is the first part: what the public entry returns first
+    for worker, w in R.wrapper_pairs:
+        sh = R.shape.get(worker.key)
+        if sh is None:
+            continue
+        Iw = R.A(w)
+        for st in Iw.final_states:
+            calls = [e for e in st.event_list() if is_call_to(e, worker)]
+            ret = util.ret_term(st)
+            if len(calls) == 1 and ret[0] == "agg" and ret[1] == "tuple" and len(ret[2]) == 2:
+                ks = [p_[1] for p_ in ret[2] if p_[0] == "proj" and p_[2] == calls[0].res and isinstance(p_[1], int)]
+                if len(ks) == 2 and ks[0] != ks[1]:
+                    sh["k0"], sh["k1"] = ks
     return R
+
+
+def _is_link(ty):
+    ty = str(ty)
+    return "Option<" in ty and "Box<" in ty
+
+
+def _split_shape(w):
+    """{'root': i, 'other': j, 'k0': a, 'k1': b} for a split worker: argument indices of the tree and of the position /
+    predicate, and the indices of the first / second part in its result (refined from the public entry by the
+    forwards-to-worker rule; (0, 1) for a pair)"""
+    links = [i for i in range(w.arg_count) if _is_link(w.locals[i + 1]["ty"])]
+    others = [i for i in range(w.arg_count) if i not in links]
+    if len(links) != 1 or len(others) != 1:
+        return {"root": 0, "other": 1, "k0": 0, "k1": 1}
+    return {"root": links[0], "other": others[0], "k0": 0, "k1": 1}
 
 
 def _worker(crate, R, b):
@@ -337,10 +371,30 @@ def check(col, prog, tier, profile, fixture=None):
         if R.shared_split and worker.key == R.split_by.key:
             continue   # the two entries of a shared skeleton hand over closures: judged by the T4 closure rules
         I = R.A(w)
+        sh = R.shape.get(worker.key)
         for st in I.final_states:
             calls = [e for e in st.event_list() if is_call_to(e, worker)]
-            ok = len(calls) == 1 and util.ret_term(st) == calls[0].res and len(calls[0].args) == w.arg_count
-            if ok:
+            ok = len(calls) == 1 and len(calls[0].args) == w.arg_count
+            ret = util.ret_term(st)
+            if ok and sh is not None:
+                # a split worker may take (position, tree) and return its own two-field result: the entry hands each of
+                # its parameters to the worker's parameter of the same kind and returns (first part, second part)
+                perm = {sh["root"]: [i for i in range(w.arg_count) if _is_link(w.locals[i + 1]["ty"])], sh["other"]: [i for i in range(w.arg_count) if not _is_link(w.locals[i + 1]["ty"])]}
+                for wi, src in perm.items():
+                    a = calls[0].args[wi]
+                    av = (calls[0].extra.get("argvals") or [None] * (wi + 1))[wi]
+                    if len(src) != 1:
+                        ok = False
+                        continue
+                    p_ = ("param", src[0] + 1, I.names.get(src[0] + 1))
+                    if not (a == p_ or a == ("ref", ("local", src[0] + 1)) or (a[0] == "ref" and av == p_)):
+                        ok = False
+                if ok and ret != calls[0].res:
+                    parts = ret[2] if ret[0] == "agg" and ret[1] == "tuple" and len(ret[2]) == 2 else None
+                    ks = [p_[1] for p_ in parts if p_[0] == "proj" and p_[2] == calls[0].res and isinstance(p_[1], int)] if parts else []
+                    ok = len(ks) == 2 and (ks[0], ks[1]) == (sh["k0"], sh["k1"])
+            elif ok:
+                ok = ret == calls[0].res
                 for i, a in enumerate(calls[0].args):
                     p_ = ("param", i + 1, I.names.get(i + 1))
                     av = (calls[0].extra.get("argvals") or [None] * (i + 1))[i]
@@ -369,8 +423,16 @@ def _split_rules(col, R, sfx):
     for nm_, b, positional in (("split_at", R.split_at, True), ("split_by", R.split_by, False)):
         I = R.A(b)
         kb = fk(R.pub[nm_]) if R.shared_split else fk(b)
-        root = ("param", 1, I.names.get(1))
-        pos = ("param", 2, I.names.get(2))
+        sh = R.shape[b.key]
+        RP, OP, K0, K1 = sh["root"], sh["other"], sh["k0"], sh["k1"]
+        root = ("param", RP + 1, I.names.get(RP + 1))
+        pos = ("param", OP + 1, I.names.get(OP + 1))
+
+        def pair_of(ret):
+            """(first part, second part) of a returned result: a pair, or the worker's own result struct"""
+            if ret[0] == "agg" and len(ret[2]) == 2:
+                return (ret[2][K0], ret[2][K1])
+            return None
         Lterm = None
         right_going = left_going = None
         rg_all, lg_all = [], []
@@ -379,25 +441,25 @@ def _split_rules(col, R, sfx):
             rec = [e for e in evs if is_call_to(e, b)]
             if not rec:
                 ret = util.ret_term(st)
-                ok = ret[0] == "agg" and all(x[0] == "agg" and x[1][3] == "None" for x in ret[2])
+                ok = ret[0] == "agg" and len(ret[2]) == 2 and all(x[0] == "agg" and x[1][3] == "None" for x in ret[2])
                 if ok:
                     col.ok("T4" + sfx, b.loc(), "%s|empty" % kb, "empty tree splits into (None, None)", nontrivial=False)
                 else:
                     col.violation("T4" + sfx, "%s|empty" % kb, b.loc(), "split of an empty tree must return (None, None), returns %s" % tstr(ret))
                 continue
             e = rec[0]
-            a0 = e.args[0]
+            a0 = e.args[RP]
             side = None
             X = None
             if a0[0] == "load" and child_field_of(a0[2], R):
                 X, side = child_field_of(a0[2], R)
             ret = util.ret_term(st)
             stores = [x for x in evs if x.kind == "store" and child_field_of(x.place, R) and x.val[0] == "proj" and x.val[2] == e.res]
-            res0, res1 = ("proj", 0, e.res), ("proj", 1, e.res)
+            res0, res1 = ("proj", K0, e.res), ("proj", K1, e.res)
             if side == R.RIGHT:
                 right_going = (st, e)
                 rg_all.append((st, e))
-                ok = ret == ("agg", "tuple", (root, res1)) and stores and stores[0].place == ("field", X, R.RIGHT) and stores[0].val == res0
+                ok = pair_of(ret) == (root, res1) and stores and stores[0].place == ("field", X, R.RIGHT) and stores[0].val == res0
                 key = "%s|right-going-assembly" % kb
                 if ok:
                     col.ok("T4" + sfx, b.loc(e.bb), key, "root.right = a; return (root, b)")
@@ -406,7 +468,7 @@ def _split_rules(col, R, sfx):
             elif side == R.LEFT:
                 left_going = (st, e)
                 lg_all.append((st, e))
-                ok = ret == ("agg", "tuple", (res0, root)) and stores and stores[0].place == ("field", X, R.LEFT) and stores[0].val == res1
+                ok = pair_of(ret) == (res0, root) and stores and stores[0].place == ("field", X, R.LEFT) and stores[0].val == res1
                 key = "%s|left-going-assembly" % kb
                 if ok:
                     col.ok("T4" + sfx, b.loc(e.bb), key, "root.left = b; return (a, root)")
@@ -452,7 +514,7 @@ def _split_rules(col, R, sfx):
         Ls = []
         ok_r, why_r = True, ""
         for st, e in rg_all:
-            arg = e.args[1]
+            arg = e.args[OP]
             d = zones.lin_sub(zones.lin_sub(zones.linearize(pos), zones.linearize(arg)), ({}, 1))
             atoms = [(a_, c_) for a_, c_ in d[0].items()]
             if d[1] != 0 or len(atoms) > 1 or (atoms and atoms[0][1] != 1):
@@ -475,14 +537,14 @@ def _split_rules(col, R, sfx):
         ok_l = True
         for st2, e2 in lg_all:
             z2 = zones.zone_of(st2.facts, I.tys)
-            if not (e2.args[1] == pos and any(z2.entails("Le", pos, Lt) and good_L(Lt, st2) for Lt in Ls)):
+            if not (e2.args[OP] == pos and any(z2.entails("Le", pos, Lt) and good_L(Lt, st2) for Lt in Ls)):
                 ok_l = False
         key = "%s|left-going-arith" % kb
         e2 = lg_all[-1][1]
         if ok_l:
             col.ok("T4" + sfx, b.loc(e2.bb), key, "pos <= L entailed for the same L; recursion with pos")
         else:
-            col.violation("T4" + sfx, key, b.loc(e2.bb), "left-going branch must be taken exactly when pos <= L (same L as subtracted on the other branch) and recurse with pos unchanged; got position %s" % tstr(e2.args[1]))
+            col.violation("T4" + sfx, key, b.loc(e2.bb), "left-going branch must be taken exactly when pos <= L (same L as subtracted on the other branch) and recurse with pos unchanged; got position %s" % tstr(e2.args[OP]))
 
 
 def _truth(f):
@@ -573,6 +635,8 @@ def _shared_decision(col, R, sfx, nm, positional, I, right_going, left_going, kb
         k = caps[0][1][1]
         assigns = [sx for _bb, _i, sx in pb.statements() if sx["k"] == "assign" and sx["place"]["l"] == k and not sx["place"]["p"]]
         start_ok = len(assigns) == 1 and assigns[0]["rv"]["k"] == "use" and assigns[0]["rv"].get("op", {}).get("k") in ("copy", "move") and assigns[0]["rv"]["op"]["place"]["l"] == 2 and not assigns[0]["rv"]["op"]["place"]["p"]
+        if k == 2 and not assigns:
+            start_ok = True   # `mut pos` itself is the counter the closure borrows
     cell = ("deref", ("upvar", 0))
     rem = ("load", ("m0",), cell)
     Lterm = None
